@@ -132,11 +132,15 @@ package message
 
 //@ spec stamped(h *handler, c context.Context) bool := c != nil && (h.name != "" ==> ctxstr(c, handlerNameKey) == h.name) && (h.publisherName != "" ==> ctxstr(c, publisherNameKey) == h.publisherName) && (h.subscriberName != "" ==> ctxstr(c, subscriberNameKey) == h.subscriberName) && (h.subscribeTopic != "" ==> ctxstr(c, subscribeTopicKey) == h.subscribeTopic) && (h.publishTopic != "" ==> ctxstr(c, publishTopicKey) == h.publishTopic)
 
+//@ spec notHandlerKey(k any) bool := k != boxed(handlerNameKey) && k != boxed(publisherNameKey) && k != boxed(subscriberNameKey) && k != boxed(subscribeTopicKey) && k != boxed(publishTopicKey)
+
 //@ func (*handler).addHandlerContext
 //@   requires h != nil
 //@   maypanic
 //@   ensures forall j int :: 0 <= j && j < len(messages) ==> stamped(h, messages[j].ctx) [every-message-stamped]
+//@   ensures forall j int, k any :: 0 <= j && j < len(messages) && notHandlerKey(k) ==> ctxval(ctxOf(messages[j]), k) == ctxval(old(ctxOf(messages[j])), k) [every-message-keeps-the-other-values-of-its-own-context]
 //@   inv loop 1: forall j int :: 0 <= j && j <= rangeindex ==> stamped(h, messages[j].ctx) [processed-are-stamped]
+//@   inv loop 1: forall j int, k any :: 0 <= j && j < len(messages) && notHandlerKey(k) ==> ctxval(ctxOf(messages[j]), k) == ctxval(old(ctxOf(messages[j])), k) [own-context-values-kept-so-far]
 //@   panics-ensures exists j int :: 0 <= j && j < len(messages) && messages[j] == nil [panics-only-on-a-nil-message]
 //@   modifies field(Message.ctx)
 
